@@ -17,10 +17,10 @@ def run(ctx):
         prog = ctx.prog(c)
         ctx.guard("C07", "tail", lambda: tail.compress_expand(ctx, prog))
         ctx.guard("C07", "rle", lambda: tail.rle_write_census(ctx, prog))
-        ctx.guard("C07", "writers", lambda: tail.classify_writers(ctx, prog))
-        ctx.guard("C07", "complete", lambda: fields.dest_complete(ctx, prog))
+        ctx.guard("C07", "writers", lambda: tail.classify_writers(ctx, prog, scope=r"hash_dual::", floor=3))
+        ctx.guard("C07", "complete", lambda: fields.dest_complete(ctx, prog, scope=r"hash_dual::", floor=2))
         ctx.guard("C07", "eq", lambda: eqord.eq_hash_ord(ctx, prog, "FuzzyHashDualData"))
-        ctx.guard("C07", "sym", lambda: eqord.len_index_symmetry(ctx, prog))
+        ctx.guard("C07", "sym", lambda: eqord.len_index_symmetry(ctx, prog, scope=r"hash_dual::", floor=8))
         ctx.guard("C07", "encoder", lambda: encoder_callers(ctx, prog))
     return ctx.finish(EXPL, ["raw inputs of the compressor are valid raw block hashes (length <= capacity)"])
 
